@@ -399,6 +399,7 @@ def run(tier):
     from . import literalblock
     rep.floor("strings folded through the literal-block predicate", literalblock.representable(rep, F), 400)
     rep.floor("line-feed-to-text segments of the literal-block loop", literalblock.indented(rep, F), 5)
+    rep.floor("rounds of the literal-block loop that write a line feed", literalblock.every_line_written(rep, F), 2)
     rep.floor("calls of emit_literal_block", literalblock.not_for_keys(rep, F), 1)
     # the amount of indentation: level x best_indent blanks
     from . import indentwidth
